@@ -23,6 +23,9 @@ func (f BooleanDisabledEnabledFactoryType) New(v uint8) (BooleanDisabledEnabled,
 }
 
 func (f BooleanDisabledEnabledFactoryType) NewEnum(v int) (Enum, error) {
+	if v < 0 || v > 0xFF {
+		return nil, ErrInvalidEnumIdx
+	}
 	return f.New(uint8(v))
 }
 
